@@ -298,6 +298,14 @@ def r6(ctx):
                 ctx.check(seen.get(f) == k, "app-iin:%s" % f, "ApplicationIin.%s ORs in %s" % (f, seen.get(f)), bd.where(line=bd.line), bad_detail="ApplicationIin.%s merges %s (expected an OR of %s)" % (f, seen.get(f), k))
 
 
+def r7(ctx):
+    """'the class events-available bits are set exactly when the buffer holds events of that class that are not part of a response
+    still awaiting confirmation': when a series ends without confirmation (timeout, cancelled by DISABLE_UNSOLICITED, new request,
+    session end) its events stop being 'part of a response awaiting confirmation' only if they are un-written again. That pairing is
+    rule C03.R3 (shared code)."""
+    import c03
+    c03.r3(ctx)
+
 RULES = [
     ("C13.R1", "T11/T4", "IIN bit positions and getters equal the standard", r1),
     ("C13.R2", "T8", "each response IIN bit is OR-ed under its namesake source", r2),
@@ -305,4 +313,5 @@ RULES = [
     ("C13.R4", "T3/T5", "every fresh response recomputes IIN before the only transmit sites", r4),
     ("C13.R5", "T2+T4", "overflow flag: set on displacement, cleared only when no type is full", r5),
     ("C13.R6", "T7", "IIN octets are merged by OR only: no accumulator field is overwritten; application flags OR in their namesake bit", r6),
+    ("C13.R7", "T3", "events of a response series that ends unconfirmed return to the pool, so the class bits see them again (shared with C03.R3)", r7),
 ]
